@@ -24,20 +24,20 @@ import (
 
 // ---------- scripted transport for the WebSocket client ----------
 type fakeWS struct {
-	mu      sync.Mutex
-	sent    [][]byte
-	recv    chan []byte
+	mu   sync.Mutex
+	sent [][]byte
+	recv chan []byte
 }
 
 func newFakeWS() *fakeWS { return &fakeWS{recv: make(chan []byte)} }
 
-func (f *fakeWS) Connect() error                          { return nil }
-func (f *fakeWS) Receive() <-chan []byte                  { return f.recv }
-func (f *fakeWS) ReceiveExt() <-chan *wsclient.WSPayload  { return nil }
-func (f *fakeWS) URL() string                             { return "fake" }
-func (f *fakeWS) SetURL(string)                           {}
-func (f *fakeWS) SetHeader(string, string)                {}
-func (f *fakeWS) Close()                                  {}
+func (f *fakeWS) Connect() error                         { return nil }
+func (f *fakeWS) Receive() <-chan []byte                 { return f.recv }
+func (f *fakeWS) ReceiveExt() <-chan *wsclient.WSPayload { return nil }
+func (f *fakeWS) URL() string                            { return "fake" }
+func (f *fakeWS) SetURL(string)                          {}
+func (f *fakeWS) SetHeader(string, string)               {}
+func (f *fakeWS) Close()                                 {}
 func (f *fakeWS) Send(_ context.Context, m []byte) error {
 	f.mu.Lock()
 	f.sent = append(f.sent, append([]byte{}, m...))
@@ -416,7 +416,7 @@ func c18WsScenario(r *Rng, nOps int, reconnectEnabled bool) map[string]any {
 	tables := rpcbackend.VerifWSTables(rc)
 	return map[string]any{"op": "rpcws.run", "reconnectEnabled": reconnectEnabled, "ops": ops, "implCalls": callObs, "implSubs": subObs, "implFrames": frames,
 		"implTables": map[string]any{"calls": len(tables["calls"]), "pending": len(tables["pending"]), "active": len(tables["active"]), "configured": len(tables["configured"])},
-		"problems": problems}
+		"problems":   problems}
 }
 
 // ---------- HTTP client: concurrency bound, unique ids, own reply with own id ----------
